@@ -1,6 +1,6 @@
 ENGINES = [
     {"name": "SX", "path": "/verif/symx", "kind_free_text": "concolic value-symbolic execution of irispie's real numeric kernels on numpy object arrays of z3 Real terms; z3 decides each obligation for all values; sat models are replayed in floats",
-     "serves_properties": ["C02", "C13"]},
+     "serves_properties": ["C02", "C13", "C17"]},
     {"name": "XH", "path": "/verif/xh", "kind_free_text": "CrossHair (symbolic execution of Python with z3) on harnesses calling the real irispie.dates / index code",
      "serves_properties": []},
 ]
@@ -15,4 +15,7 @@ CHECKS = {
 CHECKS["C13"] = dict(engine="SX", technique="symbolic execution of the real Series temporal code on cell-tagged object arrays + SMT (QF_UFNRA) equality with the documented formulas",
     text="Bounded SMT check: diff/diff_log/pct/roc (integer and keyword shifts), annualised variants, rate conversions and the four cumulations are run on Series whose cells are distinct symbolic reals; z3 shows every output cell equals the documented formula of the right input cells (and cumulation returns the original terms) for all positive reals, on every enumerated structure.",
     note="Structure (frequency, offset, length<=15, variants<=2, <=1 missing period, shift list) enumerated; reals not floats; float constants within 2^-50 of a small rational are read as that rational; daily frequency outside the claim.")
+CHECKS["C17"] = dict(engine="SX", technique="lifting Sequential.simulate at its kernel entry onto z3 reals + SMT (QF_UFNRA) check of every source equation on the symbolic output",
+    text="Bounded SMT check: the unmodified sequential kernel runs on one symbol per input cell; z3 shows that for all positive reals every equation as written in the source (transform(lhs)=rhs+residual) holds in every simulated period, exogenized points take the implied value, non-exogenized residuals and all other cells are unchanged, under both execution orders where valid.",
+    note="Model templates (3 equations, 6x6 LHS transforms, lags<=2), spans<=3, plan list enumerated; reals not floats; LOG/EXP uninterpreted with normalising constructors.")
 NOT_APPLICABLE = {f"C{i:02d}": _PENDING for i in range(1, 21)}
